@@ -206,7 +206,9 @@ func cmdConc(args []string) int {
 				call("VImportCommit", func() (bool, map[string]any) { return e.VImportCommit(ix) == nil, nil }, nil)
 			case 8:
 				src := fmt.Sprintf("ev-src%d", i)
-				call("VAdd", func() (bool, map[string]any) { return e.VAdd(ix, src, []float32{4, 4, float32(i), 1}, map[string]any{"content": "to evolve"}) == nil, nil }, nil)
+				call("VAdd", func() (bool, map[string]any) {
+					return e.VAdd(ix, src, []float32{4, 4, float32(i), 1}, map[string]any{"content": "to evolve"}) == nil, nil
+				}, nil)
 				call("VEvolve", func() (bool, map[string]any) {
 					_, err := e.VEvolve(ix, src, []float32{4, 5, float32(i), 1}, map[string]any{"content": "evolved"}, "conc")
 					return err == nil, nil
